@@ -1,0 +1,36 @@
+//go:build verif
+// +build verif
+
+package dawg
+
+//VerifNode is the projection of one node of a Dawg for the verification harness in /verif (build tag verif only).
+type VerifNode struct {
+	ID       uint64
+	Final    bool
+	NumWords int
+	Labels   []byte
+	Targets  []uint64
+}
+
+//VerifNodes returns every node reachable from t, the root first, each node once, in depth first order.
+func VerifNodes(t *Dawg) []VerifNode {
+	seen := map[*Dawg]bool{}
+	var nodes []VerifNode
+	var visit func(d *Dawg)
+	visit = func(d *Dawg) {
+		if seen[d] {
+			return
+		}
+		seen[d] = true
+		n := VerifNode{ID: d.id, Final: d.final, NumWords: d.numWords, Labels: append([]byte{}, d.linkLabels...), Targets: make([]uint64, len(d.links))}
+		for i, l := range d.links {
+			n.Targets[i] = l.id
+		}
+		nodes = append(nodes, n)
+		for _, l := range d.links {
+			visit(l)
+		}
+	}
+	visit(t)
+	return nodes
+}
